@@ -1,6 +1,6 @@
 """C04 -- literals are preserved exactly and never produce a line break."""
 import ast, itertools, json, sys
-from common import Check, fresh_oneliner
+from common import Check, fresh_oneliner, load_known_findings
 import gen_expr, unparse_common as U, leandrv
 from astjson import expr_to_json, expr_from_json
 
@@ -115,6 +115,16 @@ def fstring_cases(ck):
         yield f"fstr-escape-then-digit:{s!r}", A.JoinedStr(values=[C(s), A.FormattedValue(value=N("v"), conversion=-1, format_spec=A.JoinedStr(values=[C(s + ">3")]))])
 
 
+def spec_literal_brace(tree):
+    """KF-D75: a brace in the literal text of a format spec"""
+    for n in ast.walk(tree):
+        if isinstance(n, ast.FormattedValue) and isinstance(n.format_spec, ast.JoinedStr):
+            for v in n.format_spec.values:
+                if isinstance(v, ast.Constant) and isinstance(v.value, str) and ("{" in v.value or "}" in v.value):
+                    return True
+    return False
+
+
 def same_value(a, b):
     if type(a) is not type(b):
         return False
@@ -191,6 +201,22 @@ def main(argv):
             failing.append((name, tree, text, detail))
         elif len(ck.samples) < 6 and name.endswith("7"):
             ck.sample({"case": name, "text": text})
+    # ---- 2b. a brace in the literal text of a format spec (writable only through an escape; the stdlib unparser does not
+    # round-trip these either, so the producibility filter above never lets them through: they are parsed from source here)
+    kfs = {k["kf"]: k for k in load_known_findings("C04") if k.get("status") == "open"}
+    kf_seen = set()
+    for src in [r"f'{x:\x7b}'", r"f'{x:\x7d}'", r"f'{x:\x7b\x7d}'", r"f'{x:a\x7bb}'", r"f'{x:{y}\x7b>3}'", r"f'{x!r:\N{LEFT CURLY BRACKET}}'", r"f'a{{{x:\x7d}}}b'"]:
+        tree = ast.parse(src, mode="eval").body
+        ok, text, detail = U.roundtrip_real(ol, tree)
+        ck.case("f:" + ast.dump(tree))
+        ck.count("family:fstring-spec-brace")
+        if not ok:
+            if "KF-D75" in kfs and spec_literal_brace(tree):
+                kf_seen.add("KF-D75")
+            else:
+                failing.append((f"fstr-spec-brace:{src}", tree, text, detail))
+    for kf in sorted(kf_seen):
+        ck.known(kf, kfs[kf]["what"])
     # ---- 3. K: model = code (escape on multi-character strings; tokens of all literal trees)
     if model_ok:
         strs = [s for s in small_strings()] + ["".join(chr(c) for c in code_points(ck)[i:i + 9]) for i in range(0, 900, 9)]
